@@ -272,9 +272,14 @@ def run(ctx):
         "The hypothesis is carried by the tie Nsq.Tie.HttpShared (no mutable package-level variable in reach of internal/http_api "
         "and the handlers of nsqd/http.go) and by the concurrency leg (oracle: every answer = the answer served alone), not proved",
         "no_500 / no_500_complete: holds for healthy=true; /ping answers 500 while nsqd.IsHealthy() is false (backend write error)",
-        "no_500_complete: the request is complete (declared length = bytes that arrive, or chunked): an interrupted body is "
+        "no_500 / no_500_complete are MODEL statements for every request (no Complete hypothesis: the model has no read-error branch); "
+        "they are claimed of the real server for complete requests only (declared length = bytes that arrive, or chunked) - a named "
+        "exclusion, not a used hypothesis: an interrupted body is "
         "answered 500 by /pub, text /mpub and PUT /config (read-error branch, not modelled; observed on the real listener "
         "by TestVerifE3HTTPAudit, oracle http-interrupted)",
+        "C10Char: every *_char theorem, pub_char and stats_char assumes hc.tlsRefuse = false and the exact method/path of its endpoint "
+        "(403/405: router_status_iff); 'any other answer leaves the broker unchanged' has the exception 400 INVALID_DEFER of /pub, which has "
+        "created the topic (deferCreates); the text /mpub theorems assume max-body-size >= 0",
         "the daemon is not exiting (503 EXITING from /pub and /mpub) and os.Hostname() succeeds (/info answers 500 otherwise): "
         "no model branch, named exclusions",
         "backend I/O faults (topic.Empty / channel.Empty / PersistMetadata errors) are outside",
